@@ -28,7 +28,9 @@ def build_zoo(lab):
     # (one extent given as a numpy integer, as shapes computed with numpy are: sizes and the offsets of the fields
     # that follow become numpy integers too -- PF58)
     M = lab.array("Arr2x3Int16", (NpInt(2), 3), (1, 0), sc["Int16"])
-    D2 = lab.array("ArrNx3Float32", (None, 3), (1, 0), sc["Float32"])
+    # (a dynamic extent next to a static one that is a numpy integer: the length accessor multiplies header words and
+    # literals -- which is which must not depend on the Python type of the literal)
+    D2 = lab.array("ArrNx3Float32", (None, NpInt(3)), (1, 0), sc["Float32"])
     Ref = g("ref", "Ref")
     R = I.call(Ref, [T], {})
     MU = g("ref", "MetaUnionRef")
@@ -229,10 +231,25 @@ def t3z(cx):
     n = 0
     import itertools
 
+    nlen = 0
     for p in Z["paths"]:
         idx_sets = sorted({k[1] for k in Z["locs"] if k[0] == id(p)})
         for text, cname in Z["methods"][id(p)]:
             action = cname.split("_")[1]
+            lastt = p[-1].attrs.get("ftype") if hasattr(p[-1], "attrs") and "ftype" in p[-1].attrs else p[-1]
+            if action == "len" and id(lastt) in zoo["dims"] and len(p) == 3:
+                # the length accessor of an array that is a field of the root: evaluated on the abstract memory, it is
+                # the product of the extents the array was built with (static extents are literals of ANY integer type)
+                want = 1
+                for d_ in zoo["dims"][id(lastt)]:
+                    want *= d_
+                ev = CEval(mem, base, {})
+                r = ev.run(parse_body(text, typenames))
+                okl = r is not None and r[0] == "return" and isinstance(r[1], Poly) and r[1] == Poly.const(want)
+                nlen += 1
+                cx.check(okl, None, construct=f"{cname}: {' '.join(strip_comments(text).split())[-80:]}", detail=f"C length = product of the extents = {want}",
+                         bad_detail=f"the C length evaluates to {(r[1] if r else None)!r}, the array has {zoo['dims'][id(lastt)]} = {want} items", anchor="capi::gen_method_len", sub="len")
+                continue
             if not (action in ("get", "set") or action.startswith("getp")):
                 continue
             params = text[text.index("(") + 1 : text.index(")")]
@@ -264,6 +281,7 @@ def t3z(cx):
                      detail=f"C address = Python locator chain for {len(idx_sets)} index tuple(s)",
                      bad_detail=(f"indices {bad[0]}: C addresses obj+{bad[1]!r}, Python obj+{bad[2]!r}" if bad else ""), anchor="capi::gen_method_offset")
     cx.need(n >= 50, f"only {n} accessor/locator comparisons")
+    cx.need(nlen >= 5, f"only {nlen} length accessors evaluated")
     # union: typeid word and member address
     def thunk_u():
         u_field = [f for f in zoo["Big"].attrs["_fields"] if f.attrs["name"] == "u"][0]
